@@ -238,18 +238,18 @@ Section Sim.
     Rel st m -> op_ok opts (OpRead name) = true ->
     m_step names st (OpRead name) = Some (st', ob) -> step_ok st m (OpRead name) st' ob.
   Proof.
-    intros R Hok H. cbn [op_ok] in Hok. destruct (dfind_ci name opts) as [[cn k]|] eqn:Hf; [|discriminate].
+    intros R Hok H. cbn [op_ok op_ok_gen] in Hok. destruct (dfind_ci name opts) as [[cn k]|] eqn:Hf; [|discriminate].
     destruct (read_opt _ _ _ _ _ R Hf) as [v [Hr Hv]].
-    cbn [m_step] in H. rewrite Hr in H. inversion H. subst. split.
-    - cbn [spec_check o_wrote o_res is_nil andb]. eapply read_ok_sim; eassumption.
-    - cbn [mon_step]. exact R.
+    cbn [m_step m_step_gen] in H. rewrite Hr in H. inversion H. subst. split.
+    - cbn [spec_check spec_check_gen o_wrote o_res is_nil andb]. eapply read_ok_sim; eassumption.
+    - cbn [mon_step mon_step_gen]. exact R.
   Qed.
 
   Lemma sim_needs_save st m st' ob :
     Rel st m -> m_step names st OpNeedsSave = Some (st', ob) -> step_ok st m OpNeedsSave st' ob.
   Proof.
-    intros R H. cbn [m_step] in H. inversion H. subst. split; [|exact R].
-    cbn [spec_check o_wrote o_res is_nil andb].
+    intros R H. cbn [m_step m_step_gen] in H. inversion H. subst. split; [|exact R].
+    cbn [spec_check spec_check_gen o_wrote o_res is_nil andb].
     pose proof (r_ukeys _ _ R) as Hk.
     destruct (m_unsaved st') as [|x u], (s_pend (m_st m)) as [|y p]; cbn in Hk; try discriminate; reflexivity.
   Qed.
@@ -308,16 +308,16 @@ Section Sim.
     Rel st m -> op_ok opts (OpAssign name v) = true ->
     m_step names st (OpAssign name v) = Some (st', ob) -> step_ok st m (OpAssign name v) st' ob.
   Proof.
-    intros R Hok H. cbn [op_ok] in Hok. destruct (dfind_ci name opts) as [[cn k]|] eqn:Hf; [|discriminate].
+    intros R Hok H. cbn [op_ok op_ok_gen] in Hok. destruct (dfind_ci name opts) as [[cn k]|] eqn:Hf; [|discriminate].
     destruct (dfind_ci_In _ _ _ _ Hf) as [Hin Hci].
     assert (find_real_name st name = cn) as Hrn by (eapply find_real_name_opt; eassumption).
     assert (find_real_name st cn = cn) as Hrn2 by (eapply find_real_name_canon; eassumption).
     pose proof (validate_agrees_all k v Hok) as Hag.
-    cbn [m_step] in H. unfold m_setattr in H.
+    cbn [m_step m_step_gen] in H. unfold m_setattr in H.
     rewrite Hrn, (opts_not_hs _ _ Hin), (r_ptys _ _ R _ _ Hin), Hrn2 in H.
     destruct (ty_of k) as [[pk vk] il] eqn:Ety.
     assert (vk = vk_of k) as Hvk by (unfold vk_of; now rewrite Ety). subst vk.
-    unfold step_ok. cbn [spec_check mon_step]. unfold spec_next. rewrite Hf.
+    unfold step_ok. cbn [spec_check spec_check_gen mon_step mon_step_gen]. unfold spec_next, spec_next_gen. rewrite Hf.
     destruct (spec_validate k v) as [iv|] eqn:Esv; cbn [pending_agrees] in Hag.
     - (* accepted *)
       assert (exists v1, validate (vk_of k) v = Ok v1 /\
@@ -476,11 +476,11 @@ Section Sim.
     m_f3 (mon_step opts defaults m (OpListOp name lo)) = false ->
     m_step names st (OpListOp name lo) = Some (st', ob) -> step_ok st m (OpListOp name lo) st' ob.
   Proof.
-    intros R Hok Hf3 H. cbn [op_ok] in Hok. destruct (dfind_ci name opts) as [[cn k]|] eqn:Hf; [|discriminate].
+    intros R Hok Hf3 H. cbn [op_ok op_ok_gen] in Hok. destruct (dfind_ci name opts) as [[cn k]|] eqn:Hf; [|discriminate].
     apply andb_true_iff in Hok as [Hlk Hlop].
     destruct (dfind_ci_In _ _ _ _ Hf) as [Hin Hci].
     destruct (r_clean _ _ R) as [C1 C3].
-    cbn [mon_step] in Hf3. rewrite Hf in Hf3. cbn [m_f3] in Hf3.
+    cbn [mon_step mon_step_gen] in Hf3. rewrite Hf in Hf3. cbn [m_f3] in Hf3.
     rewrite C3 in Hf3. cbn [orb] in Hf3.
     destruct (listop_target _ _ _ _ R Hin Hlk Hf3) as [L [Hc [Hcur [HfL Hcase]]]].
     (* the model side *)
@@ -489,9 +489,9 @@ Section Sim.
     { destruct g as [v|d]; [rewrite (Hgc v eq_refl) in Hc; now inversion Hc|rewrite (Hgd d eq_refl) in Hc; discriminate]. }
     assert (find_real_name st cn = cn) as Hrn2 by (eapply find_real_name_canon; eassumption).
     assert (dmem cn (m_config st) = true) as Hdc by (unfold dmem; now rewrite Hc).
-    cbn [m_step] in H. unfold m_listop in H. rewrite Hg in H.
+    cbn [m_step m_step_gen] in H. unfold m_listop in H. rewrite Hg in H.
     change on_modify_before_op with false in H. cbv iota in H.
-    unfold step_ok. cbn [spec_check mon_step]. unfold spec_next. rewrite Hf, Hcur.
+    unfold step_ok. cbn [spec_check spec_check_gen mon_step mon_step_gen]. unfold spec_next, spec_next_gen. rewrite Hf, Hcur.
     destruct R as [R1 R2 R3 R4 R5 R6 R7 R9 R8 R10].
     destruct (py_list_op lo L) as [L'|e] eqn:Eop.
     2:{ (* the operation raises: nothing changes *)
@@ -560,11 +560,11 @@ Section Sim.
     m_fs (mon_step opts defaults m (OpCopy dst src)) = false ->
     m_step names st (OpCopy dst src) = Some (st', ob) -> step_ok st m (OpCopy dst src) st' ob.
   Proof.
-    intros R Hok Hfs H. cbn [op_ok] in Hok.
+    intros R Hok Hfs H. cbn [op_ok op_ok_gen] in Hok.
     destruct (dfind_ci dst opts) as [[cd kd]|] eqn:Hfd; [|discriminate].
     destruct (dfind_ci src opts) as [[cs ks]|] eqn:Hfsrc; [|discriminate].
     destruct (dfind_ci_In _ _ _ _ Hfd) as [Hind _]. destruct (dfind_ci_In _ _ _ _ Hfsrc) as [Hins _].
-    cbn [mon_step] in Hfs. rewrite Hfd, Hfsrc in Hfs. cbn [m_fs] in Hfs. apply orb_false_iff in Hfs as [_ Hnp].
+    cbn [mon_step mon_step_gen] in Hfs. rewrite Hfd, Hfsrc in Hfs. cbn [m_fs] in Hfs. apply orb_false_iff in Hfs as [_ Hnp].
     assert (dget cs (s_pend (m_st m)) = None) as Hp by (apply dmem_false_dget; exact Hnp).
     assert (is_list_kind ks = true /\ is_list_kind kd = true) as [Hlks Hlkd] by (destruct kd, ks; try discriminate Hok; auto).
     destruct (r_sync _ _ R _ _ Hins Hp) as [Hus [Hview Hl]].
@@ -578,12 +578,12 @@ Section Sim.
     { destruct g as [v|d]; [rewrite (Hgc v eq_refl) in Hc; now inversion Hc|rewrite (Hgd d eq_refl) in Hc; discriminate]. }
     assert (find_real_name st dst = cd) as Hrn by (eapply find_real_name_opt; eassumption).
     assert (find_real_name st cd = cd) as Hrn2 by (eapply find_real_name_canon; eassumption).
-    cbn [m_step] in H. rewrite Hg in H. unfold m_setattr in H.
+    cbn [m_step m_step_gen] in H. rewrite Hg in H. unfold m_setattr in H.
     rewrite Hrn, (opts_not_hs _ _ Hind), (r_ptys _ _ R _ _ Hind), Hrn2 in H.
     assert (exists pk vk il, ty_of kd = (pk, vk, il) /\ validate vk (PList (map AStr els)) = Ok (PList (map AStr els))) as [pk [vk [il [Ety Hval]]]]
       by (destruct kd; try discriminate Hlkd; eexists _, _, _; split; reflexivity).
     rewrite Ety, Hval in H. cbn [bind cval_of_pyval] in H. inversion H. subst st' ob. clear H.
-    unfold step_ok. cbn [spec_check mon_step o_wrote o_res is_nil andb]. unfold spec_next. rewrite Hfd, Hfsrc, Hcur.
+    unfold step_ok. cbn [spec_check spec_check_gen mon_step mon_step_gen o_wrote o_res is_nil andb]. unfold spec_next, spec_next_gen. rewrite Hfd, Hfsrc, Hcur.
     split; [reflexivity|].
     destruct R as [R1 R2 R3 R4 R5 R6 R7 R9 R8 R10].
     constructor; cbn [m_st m_det m_f1 m_f3 m_fs m_f4 s_store s_pend with_unsaved m_parsers m_config m_defaults m_unsaved m_listp];
